@@ -11,7 +11,8 @@
 (*                                                                             *)
 (* Actions: Mark, AstMutate (ReplaceStmt / ReplaceExpr by a new object, an     *)
 (* object of the same tree or of another tree; Insert (incl. duplicate),       *)
-(* Delete, Swap, Move of list elements; SetPrim), FstEditAfterMark (an         *)
+(* Delete, Swap, Move of list elements; SetPrim; the named special cases       *)
+(* SiblingCopy and ForeignPair), FstEditAfterMark (an                          *)
 (* FST-native edit: documented to invalidate the mark), Reconcile.             *)
 (*                                                                             *)
 (* What the model establishes (checked exhaustively by TLC within the          *)
@@ -270,7 +271,44 @@ SetPrim ==
                [kind |-> "setprim", cur |-> r.p, n |-> "val", i |-> 0, j |-> 0, src |-> [k |-> "", t |-> "", cur |-> <<>>],
                 cur2 |-> <<>>, n2 |-> ""])
 
-AstMutate == ReplaceStmt \/ ReplaceExpr \/ Insert \/ Delete \/ Swap \/ Move \/ SetPrim
+(* Two alignments that matter for an implementation that copies *runs* of    *)
+(* neighbouring nodes (sub-cases of ReplaceStmt / Insert, named so that they  *)
+(* can be generated on purpose, see ReconcileMC!SpecSib):                      *)
+(* SiblingCopy: the k-th statement of one block of a compound statement is    *)
+(* linked at the k-th place of - or inserted right behind the k-th place of - *)
+(* a SIBLING block of the same statement, so that it is followed by a         *)
+(* statement that has the next index in its own block;                        *)
+(* ForeignPair: two statements of one compound statement of another tree,     *)
+(* taken from two different blocks at consecutive indices, inserted side by   *)
+(* side.                                                                      *)
+SiblingCopy ==
+  \E r \in Reach : \E f \in ListFieldsOf(heap, r.o) : \E g \in ListFieldsOf(heap, r.o) :
+  \E k \in 1..Len(Kids(heap, r.o, g)) : \E ins \in BOOLEAN :
+    /\ heap[r.o].t = "B" /\ f # g
+    /\ LET F == Kids(heap, r.o, f)
+           x == Kids(heap, r.o, g)[k]
+           src == [k |-> "same", t |-> heap[x].t, cur |-> r.p \o <<Elt(g, k)>>] IN
+       /\ k <= Len(F)
+       /\ \/ /\ ~ins /\ F[k] # x
+             /\ Mutated(SetList(heap, r.o, f, [F EXCEPT ![k] = x]), nextid, <<MkSite(r.o, f, "slot", k)>>,
+                        [kind |-> "replace_same", cur |-> r.p, n |-> f, i |-> k, j |-> 0, src |-> src,
+                         cur2 |-> <<>>, n2 |-> ""])
+          \/ /\ ins
+             /\ Mutated(SetList(heap, r.o, f, InsAt(F, k + 1, x)), nextid, <<MkSite(r.o, f, "list", k + 1)>>,
+                        [kind |-> "insert_same", cur |-> r.p, n |-> f, i |-> k + 1, j |-> 0, src |-> src,
+                         cur2 |-> <<>>, n2 |-> ""])
+
+ForeignPair ==
+  \E r \in Reach : \E f \in ListFieldsOf(heap, r.o) : \E i \in 1..(Len(Kids(heap, r.o, f)) + 1) :
+    /\ nextid + 3 <= MaxObj
+    /\ LET h1  == Over(heap, NewFrag(nextid - 1, "S", "other") @@ NewFrag(nextid + 1, "S", "other"))
+           lst == Kids(heap, r.o, f) IN
+       Mutated(SetList(h1, r.o, f, InsAt(InsAt(lst, i, nextid), i + 1, nextid + 2)), nextid + 4,
+               <<MkSite(r.o, f, "list", i)>>,
+               [kind |-> "insert_other", cur |-> r.p, n |-> f, i |-> i, j |-> 0,
+                src |-> [k |-> "otherpair", t |-> "S", cur |-> <<>>], cur2 |-> <<>>, n2 |-> ""])
+
+AstMutate == ReplaceStmt \/ ReplaceExpr \/ Insert \/ Delete \/ Swap \/ Move \/ SetPrim \/ SiblingCopy \/ ForeignPair
 
 (* ------------------------------- reconcile ------------------------------- *)
 ProvOf(o) == [src |-> IF IsMarked(o) THEN "mark" ELSE heap[o].org,
